@@ -133,7 +133,9 @@ SupportedMn == {"addu", "subu", "and", "or", "xor", "nor", "slt", "sltu", "movz"
                 "srav", "addiu", "andi", "ori", "xori", "lui", "slti", "sltiu", "lw", "sw", "lb", "lbu", "sb", "lh", "lhu", "sh",
                 "mult", "multu", "mfhi", "mflo", "mthi", "mtlo", "mul", "beq", "bne", "blez", "bgtz", "bltz", "bgez", "j", "jal", "jr"}
 Supported(p, reach) ==
-  IF ~IsMips(p) THEN TRUE      \* Closed already restricts PPC programs to PSupportedMn
+  IF ~IsMips(p)                \* Closed already restricts PPC programs to PSupportedMn; capstone prints rlwinm with
+                               \* mb = 0 or me = 31 under alias names (rotlwi, clrlwi, srwi, ...) that the lifter refuses
+  THEN \A a \in DInstr(reach) : LET d == PDecode(WordAt(p, a \div 4)) IN d.mn = "rlwinm" => d.mb # 0 /\ d.me # 31
   ELSE \A a \in DInstr(reach) : LET d == DecAt(p, a \div 4) IN d.mn \in SupportedMn /\ (d.mn = "nor" => d.rt # 0)
 
 \* ---- the recovered function as Recover.tla sees it -------------------------------------------
